@@ -106,7 +106,7 @@ class Check:
         t = []
         for d in (dirs or [self.pid]):
             t += sorted(glob.glob(os.path.join(COQ, d, "*.v")))
-        t.append(os.path.join(COQ, "Properties", self.pid + ".v"))
+        t += sorted(glob.glob(os.path.join(COQ, "Properties", self.pid + "*.v")))
         return [os.path.relpath(x, COQ) + "o" for x in t if os.path.exists(x)]
 
     def coq_make(self, dirs=None):
@@ -132,12 +132,23 @@ class Check:
 
     def coq_properties(self, relfile=None):
         """Re-check coq/Properties/<pid>.v: every Theorem there is an obligation; collect Print Assumptions."""
-        relfile = relfile or ("Properties/%s.v" % self.pid)
+        if relfile is None:
+            rels = [os.path.relpath(x, COQ) for x in sorted(glob.glob(os.path.join(COQ, "Properties", self.pid + "*.v")))]
+            if len(rels) != 1:
+                if not rels:
+                    self.break_("proof", "coq/Properties/%s.v is missing" % self.pid)
+                    return False, []
+                allok, allnames = True, []
+                for r in rels:
+                    ok, names = self.coq_properties(r)
+                    allok, allnames = allok and ok, allnames + names
+                return allok, allnames
+            relfile = rels[0]
         src = os.path.join(COQ, relfile)
         text = open(src).read()
         names = re.findall(r"^\s*(?:Theorem|Corollary)\s+([A-Za-z0-9_']+)", text, re.M)
         # compile a copy in the build dir so concurrent checks do not race on the .vo
-        dst = os.path.join(self.build, "Props_%s.v" % self.pid)
+        dst = os.path.join(self.build, "Props_%s" % os.path.basename(relfile))
         shutil.copy(src, dst)
         ok, out = self.coqc(dst, extra_q=[(self.build, "SVB")])
         for n in names:
